@@ -11,7 +11,7 @@ namespace Ems.CacheKey
 (rather than by its name)? -/
 def candidate : ConvSpec → VarView → Bool
   | .cfGrid lat lon, v => (lat.isNone && isLatitude v) || (lon.isNone && isLongitude v)
-  | .shocSimple, v => v.dims == Gen.shocSimpleDims
+  | .shocSimple, v => isShocCoordinate "latitude" v || isShocCoordinate "longitude" v
   | .arakawaC _, _ => false
   | .ugrid _, v => !v.isCoord && v.attr "cf_role" == some "mesh_topology"
 
@@ -86,13 +86,10 @@ theorem cfNames_insert (pre post : Views) (v : VarView) (lat lon : String)
     exact hb
   · rfl
 
-theorem shocSimpleFind_insert (std : String) (v : VarView) (hc : (v.dims == Gen.shocSimpleDims) = false) :
-    ∀ (pre post : Views), shocSimpleFind std (pre ++ v :: post) = shocSimpleFind std (pre ++ post)
-  | [], post => by simp [shocSimpleFind, hc]
-  | w :: pre, post => by
-    simp only [List.cons_append, shocSimpleFind]
-    rw [shocSimpleFind_insert std v hc pre post]
-
+theorem shocSimpleFind_insert (std : String) (v : VarView) (hc : isShocCoordinate std v = false)
+    (pre post : Views) : shocSimpleFind std (pre ++ v :: post) = shocSimpleFind std (pre ++ post) := by
+  unfold shocSimpleFind
+  rw [find?_insert _ _ _ _ hc]
 
 theorem mapM_option_congr {α β} (f g : α → Option β) : ∀ (l : List α), (∀ a ∈ l, f a = g a) →
     l.mapM f = l.mapM g
@@ -226,9 +223,9 @@ theorem inventoryOf_insert (spec : ConvSpec) (pre post : Views) (v : VarView)
       exact cfNames_insert _ _ _ _ _ hl
     · rfl
   | shocSimple =>
-    simp only [candidate] at hc
+    simp only [candidate, Bool.or_eq_false_iff] at hc
     simp only [inventoryOf, lookedUp] at hl ⊢
-    rw [shocSimpleFind_insert _ _ hc, shocSimpleFind_insert _ _ hc]
+    rw [shocSimpleFind_insert _ _ hc.1, shocSimpleFind_insert _ _ hc.2]
     split
     · rename_i la lo h1 h2
       simp only [h1, h2] at hl
